@@ -74,6 +74,9 @@ def r1(cx, rec):
                 desc.append(('enc', enc[1], show(enc[2][0]), tuple(post), tuple(muts)))
             elif V.mentions_field(q, V.MI, V.meta_announce(F)):
                 desc.append(('announce',))
+                rec.need(is_announce(F, q), 'url-prefix-rewritten', U, bi,
+                         'the URL starts with a rewritten form of the announce URL (%s): path and existing query must be kept as they '
+                         'are (trimming, case folding or replacing changes what the tracker receives)' % show(q)[:100])
             elif q[0] in ('var', 'mvar'):
                 desc.append(('var', q[1]))
             else:
@@ -120,7 +123,7 @@ def r2(cx, rec):
             table[x[4][0][1][1]] = x[4][1][1]
     rec.site(f, qb, 'query parameters: %s' % {k: show(v)[-60:] for k, v in table.items()})
     want = {
-        'peer_id': lambda v: re.search(r'from_utf8\(std::slice::<impl \[T\]>::to_vec\(\(self\.own_id as &\[u8\]\)\)\)', show(v)) is not None and 'take' not in show(v),
+        'peer_id': lambda v: re.search(r'from_utf8\(std::slice::<impl \[T\]>::to_vec\(\(self\.%s as &\[u8\]\)\)\)' % re.escape(client_id_field(F)), show(v)) is not None and 'take' not in show(v),
         'port': lambda v: re.fullmatch(r'std::string::ToString::to_string\(constants::PORT\)', show(v)) is not None,
         'left': lambda v: (lambda s_: re.fullmatch(r'std::string::ToString::to_string\(metainfo::Metainfo::total_length\(self\.metainfo\)\)', s_) is not None)(show(v)),
         'uploaded': lambda v: True,
@@ -142,8 +145,17 @@ def r2(cx, rec):
     for g in F.user_fns():
         for bi, si, x in mirq.agg_sites(g, r'^tracker_client::TrackerClient$'):
             fs = dict(x[4])
-            rec.site(g, bi, 'TrackerClient{own_id <- %s}' % access_path(fs.get('own_id', ('other', ''))))
-            rec.need(access_path(fs.get('own_id', ('other', ''))) == 'own_id', 'client-own-id', g, bi, 'own_id slot receives %s' % show(fs.get('own_id', ('other', '')))[:60])
+            cid = client_id_field(F)
+            src = fs.get(cid, ('other', ''))
+            idp = [n for n, l, t in C.params_of(g, r'^&?\[u8; (20|PEER_ID_SIZE)\]$')]
+            rec.site(g, bi, 'TrackerClient{%s <- %s}' % (cid, access_path(src)))
+            rec.need(len(idp) == 1 and access_path(src) == idp[0], 'client-own-id', g, bi, 'own id slot receives %s' % show(src)[:60])
+            # and the manager hands its own id to the constructor
+            for h, hb in C.callers(F, g.path):
+                args = dict(zip([n for n, l, t in C.params_of(g)], h.expr_call(hb)[2]))
+                if idp and idp[0] in args:
+                    rec.need(access_path(args[idp[0]]) == 'self.' + V.session_own_id(F), 'client-own-id', h, hb,
+                             'the tracker client is created with %s, not the session\'s own peer id' % show(args[idp[0]])[:60])
             rec.need(access_path(fs.get('metainfo', ('other', ''))) == 'metainfo', 'client-metainfo', g, bi, 'metainfo slot receives %s' % show(fs.get('metainfo', ('other', '')))[:60])
 
 
@@ -161,6 +173,10 @@ def is_announce(F, e):
         else:
             break
     return e[0] == 'field' and len(e) > 3 and e[3] == V.MI and e[2] == V.meta_announce(F)
+
+
+def client_id_field(F):
+    return V.field(F, 'tracker_client::TrackerClient', r'^\[u8; PEER_ID_SIZE\]$', 'own peer id of the tracker client')
 
 
 @TABLE.rule('3', 'K10', 'query awareness: the separator before info_hash= depends on whether the announce URL already has a query', floor=1)
